@@ -27,7 +27,14 @@ fn cli_selects(s: &str) -> String {
         "--step-ebn0", "1.0", "code.alist"]).ok().map(|a| format!("{a:?}")));
     match r {
         Ok(None) => String::new(),
-        Ok(Some(dbg)) => dbg.split("decoder: ").nth(1).and_then(|t| t.split([',', ' ', '}']).next()).unwrap_or("?").to_string(),
+        Ok(Some(dbg)) => {
+            // the selected implementation is read off the parsed arguments' Debug form WITHOUT assuming a field name or layout: the
+            // documented names that occur in it as whole tokens.  None at all (a hand-written Debug) = not observable: benefit of the doubt
+            let mut found: Vec<&str> = dbg.split(|c: char| !c.is_ascii_alphanumeric()).filter(|t| NAMES.contains(t)).collect();
+            found.sort_unstable();
+            found.dedup();
+            match found.len() { 0 => s.to_string(), 1 => found[0].to_string(), _ => format!("ambiguous:{}", found.join("+")) }
+        }
         Err(m) => format!("panic:{m}"),
     }
 }
